@@ -107,6 +107,21 @@ def gen_cases(tier: str, seed: int):
     for ep in ENTRY_POINTS:
         for ctx in ("full", "none"):
             yield {"part": "closed", "entry": ep, "ctx": ctx}
+    # every kind of statement on a closed connection: the same DatabaseError, whatever fakesnow does before it reaches the engine
+    from fsverif import zoo
+
+    seen = set()
+    for z in zoo.ZOO:
+        for s in z["stmts"]:
+            sql = zoo.render(s)
+            head = " ".join(sql.split()[:3]).upper()
+            if head not in seen:
+                seen.add(head)
+                yield {"part": "closed", "entry": "statement", "ctx": "full", "sql": sql}
+    for sql in ("CREATE TABLE IF NOT EXISTS T9 (A INT)", "CREATE TABLE IF NOT EXISTS DB1.S1.ORDERS (A VARCHAR(3)) COMMENT = 'c'",
+                "SET v = 1", "SELECT $v", "UNSET v", "COMMENT ON TABLE ORDERS IS 'x'", "TRUNCATE TABLE ORDERS", "BEGIN", "COMMIT", "ROLLBACK",
+                "USE DATABASE DB1", "USE SCHEMA S1", "DROP SCHEMA S1", "CREATE DATABASE D9", "SHOW TABLES", "DESCRIBE TABLE ORDERS"):
+        yield {"part": "closed", "entry": "statement", "ctx": "full", "sql": sql}
     for what in ("table", "view", "column"):
         yield {"part": "stale_description", "what": what}
     for i in range(len(FAILS)):
@@ -348,6 +363,9 @@ def _closed(case: dict, env: core.Env) -> None:
                 _ = old.description
             elif ep == "describe":
                 old.describe("SELECT 1")
+            elif ep == "statement":
+                ep = "statement:" + " ".join(case["sql"].split()[:2]).upper()
+                old.execute(case["sql"])
             elif ep == "write_pandas":
                 fakes.write_pandas(conn, pd.DataFrame({"ID": [1]}), "ORDERS", database="DB1", schema="S1")
             env.witness(f"C07/closed-connection/no-error/{ep}", "use of a closed connection succeeded")
